@@ -139,3 +139,9 @@ package eni
 //@ # an interface returned together with an error stays tracked and is marked for deletion
 //@ guard store Local.eni in factoryAllocWorker: value == c07eni
 //@ guard store Local.status in factoryAllocWorker: value != 0 || !c07enierr || c07eni == nil
+
+//@ for C05
+
+//@ # ---- restart: a stored binding is re-applied to the entry of its own address, in the set of its own family ----
+//@ guard call IP.Allocate#2 in load: recv == l.ipv4[ip] && arg0 == podID
+//@ guard call IP.Allocate#3 in load: recv == l.ipv6[ip] && arg0 == podID
